@@ -1261,19 +1261,6 @@ def exhaustive_scripts(t, nmax):
                             if t == "rtsp":
                                 continue
                             out.append(build(t, base, fault=(w, kind), timeout_w=w2, timeout_pos=apos))
-            if t == "companion" and n <= 2:
-                # the single map holds transaction ids AND auth frame types: the counter starts at 0..8 (so the
-                # ids run through 4 = PS_Next and 6 = PV_Next), a pair-setup / pair-verify exchange is outstanding
-                # together with OPACK requests, and a Response carrying id 4 / 6 or an unsolicited PS_Next /
-                # PV_Next frame arrives at every position
-                stray = [{"tag": 96, "kind": "resp", "ft": 8, "xid": 4}, {"tag": 96, "kind": "resp", "ft": 8, "xid": 6},
-                         {"tag": 97, "kind": "auth", "ft": 4}, {"tag": 97, "kind": "auth", "ft": 6}]
-                for x0 in range(9):
-                    for au in ({}, {0: 3}, {0: 5}, {n - 1: 4}, {n - 1: 6}):
-                        out.append(build(t, base, auth=au, xid0=x0))
-                        for um in stray:
-                            for up in range(L + 1):
-                                out.append(build(t, base, auth=au, xid0=x0, unsol_pos=up, umsg=um))
             if t == "companion":
                 # fire-and-forget send_opack of an event at every position, the device answering that event with
                 # a Response frame (error "No request handler", or a plain one) at every later position
@@ -1316,6 +1303,34 @@ def exhaustive_scripts(t, nmax):
         if k not in seen:
             seen.add(k)
             res.append(s)
+    return res
+
+
+def companion_xid_family():
+    """the single map of CompanionProtocol holds transaction ids AND auth frame types: the counter starts at
+    0..8 (so the ids run through 4 = PS_Next and 6 = PV_Next), a pair-setup / pair-verify exchange is outstanding
+    together with OPACK requests, and a Response carrying id 4 / 6 or an unsolicited PS_Next / PV_Next frame
+    arrives at every position"""
+    t = "companion"
+    out = []
+    stray = [{"tag": 96, "kind": "resp", "ft": 8, "xid": 4}, {"tag": 96, "kind": "resp", "ft": 8, "xid": 6},
+             {"tag": 97, "kind": "auth", "ft": 4}, {"tag": 97, "kind": "auth", "ft": 6}]
+    for n in (1, 2):
+        for base in interleavings(n):
+            L = len(base)
+            for x0 in range(9):
+                for au in ({}, {0: 3}, {n - 1: 5}):
+                    out.append(build(t, base, auth=au, xid0=x0))
+                    for um in stray:
+                        for up in range(L + 1):
+                            out.append(build(t, base, auth=au, xid0=x0, unsol_pos=up, umsg=um))
+    seen = set()
+    res = []
+    for sc in out:
+        k = json.dumps(sc, sort_keys=True)
+        if k not in seen:
+            seen.add(k)
+            res.append(sc)
     return res
 
 
@@ -1570,6 +1585,9 @@ def run(ctx):
         if t == "mrp":
             for spec in LSETS:
                 evaluate(ctx, t, dispatch_probe(spec), cases, "listener-sets")
+        if t == "companion":
+            for s in companion_xid_family():
+                evaluate(ctx, t, s, cases, "small-xids-and-auth")
         # two independent protocol/connection objects alive in the process: the same (or the next) script on
         # both, one after the other and strictly alternating; the second object uses its own message tags
         fam = exhaustive_scripts(t, 2)
